@@ -47,6 +47,10 @@ fn run_one(v: &Value, out: &mut Vec<String>) {
     sim.ignores_term = v["ignores_term"].as_bool().unwrap_or(false);
     sim.kill_latency = v["kill_latency"].as_u64().unwrap_or(0);
     sim.overshoot = v["overshoot"].as_u64().unwrap_or(0);
+    if let Some(sc) = v["script"].as_array() {
+        sim.script = Some(sc.iter().map(|x| x.as_str().unwrap().as_bytes()[0]).collect());
+        sim.script_exit = Some(stat(&v["exit"]));
+    }
     sim.log(json!({"e":"reset","id":v["id"],"pid":psim::VPID,"detached":detached_cfg,
         "ignores_term": sim.ignores_term}));
     unsafe { psim::PSIM = Some(sim) };
@@ -56,6 +60,7 @@ fn run_one(v: &Value, out: &mut Vec<String>) {
     for op in v["ops"].as_array().unwrap() {
         let a = op.as_array().unwrap();
         let name = a[0].as_str().unwrap();
+        sim.script_point(b'K');
         if name == "delay" {
             let d = a[1].as_u64().unwrap();
             let to = sim.now + d;
@@ -107,6 +112,7 @@ fn run_one(v: &Value, out: &mut Vec<String>) {
         sim.log(json!({"e":"apiret","op":name,"res":res,"now":tpair(sim.now),"nsys":sim.sys_in_call}));
     }
     if v["drop"].as_bool().unwrap_or(true) {
+        sim.script_point(b'K');
         sim.sys_in_call = 0;
         sim.log(json!({"e":"api","op":"drop","d":tpair(0),"n":0,"now":tpair(sim.now)}));
         let r = catch_unwind(AssertUnwindSafe(|| drop(popen.take())));
@@ -114,7 +120,8 @@ fn run_one(v: &Value, out: &mut Vec<String>) {
         sim.log(json!({"e":"apiret","op":"drop","res":res,"now":tpair(sim.now),"nsys":sim.sys_in_call}));
     }
     let fin = format!("{:?}", sim.st);
-    sim.log(json!({"e":"end","st":fin}));
+    let drift = sim.script_drift;
+    sim.log(json!({"e":"end","st":fin,"drift":drift}));
     unsafe {
         EPOCH = 2_000_000_000_000 + (EPOCH + 1_000_000_000) % 1_000_000_000_000;
     }
